@@ -94,3 +94,33 @@ CLAIMED["C05"] = dict(
          "against the complete optimal set of a brute-force oracle on the C01 scope.",
     note="Trusted: pyvc encoding; z3/cvc5; 'tagged' = truthy info; brute-force oracle for the bounded part. Ordered / unordered solvers are covered under C02 / C03.",
 )
+
+_STEP = ("The recurrence (Bellman) contract of the table step function is written as an executable specification from the documented event model - every pair of child placements "
+         "enumerated explicitly, value = optimum, ALL = exactly the optimal placements, ANY = one of them, frame = nothing else written - and evaluated at run time on the REAL function "
+         "with randomly filled REAL tables (species trees <= 4 leaves; 1500 quick / 20000 thorough tables)")
+CLAIMED["C01"]["text"] += " " + _STEP + " for _compute_thl_try_speciation and _compute_thl_try_duplication_transfer: bounded, not proved."
+CLAIMED["C02"] = dict(
+    text="Bounded (labelled exploration): sreconcile_base_spfs and sreconcile_extended_spfs are run under ALL and ANY on 2400 (24000 thorough) random binary inputs (object trees 2-4 (5) leaves, species trees 1-3 (4) leaves, "
+         "1-4 families, consistent and inconsistent leaf orders, optional prescribed root order, cost vectors of the coherent region incl. zero and infinite entries) and compared with an independent optimum over every species mapping "
+         "(base: the LCA mapping), every compatible root order and every labelling; empty result iff no order is compatible. " + _STEP + " for _compute_spfs_entry. "
+         "PROVED from the real AST: the callees the recurrence rests on - subseq_complete, mask_from_subseq, subseq_from_mask, subseq_segment_dist (C18 contracts) and the ordered labelling cost / total cost the results are ranked by (C06 contracts). "
+         "The SPFS table contracts themselves are not discharged.",
+    note="Trusted: the oracle (standin/srec.py: memoised recursion over (node, species, mask) cross-checked against explicit enumeration on tiny inputs in the thorough tier); stated bounds; for the proved cone the C06/C18 trusted base. "
+         "A genuine defect found by this oracle (segmental-loss cost 0 accepted non-subsequences) was repaired in /repo (fix: commit 0e96c3d).",
+)
+CLAIMED["C03"] = dict(
+    text="Bounded (labelled exploration): usreconcile_base_uspfs and usreconcile_extended_uspfs (SuperDTL) are run under ALL and ANY on 2400 (24000) random binary inputs (3-5 object leaves incl. caterpillars, 1-4 species leaves, 2-4 families) "
+         "and compared with an independent optimum over every species mapping and EVERY admissible labelling (each family on a connected node set below the LCA of its carriers), which also validates on that scope that the two canonical labellings lose nothing. "
+         + _STEP + " for _compute_uspfs_entry (both kinds, lca_sets unmodified). PROVED from the real AST: the unordered labelling cost, the event model and the total cost the results are ranked by (C06 contracts). "
+         "The USPFS table contracts themselves are not discharged.",
+    note="Trusted: the oracle (standin/srec.py); stated bounds; C06 trusted base for the proved cone. A genuine defect found by this oracle (decoding mutated the shared required-family sets) was repaired in /repo (fix: commit d062ca3).",
+)
+CLAIMED["C04"] = dict(
+    text="Bounded (labelled exploration): every solution returned by thl, exhaustive and the four labelled solvers on the C01-C03 scopes (all cost vectors, segmental-loss cost 0 and incoherent vectors included, both policies) is re-checked against the validity clauses "
+         "of the statement with parent-chain ancestry only: total mapping, leaves kept, no invalid event, finite cost, leaf syntenies = input, ordered: child subsequence of parent and root holds every family once, unordered: family only inside the subtree of its gain node "
+         "and never below a parent lacking it. PROVED from the real AST: the functions that decide validity - node_event against the documented event model incl. INVALID, _cost_rec / cost (infinite iff an invalid event), "
+         "subseq_segment_dist = -1 iff not contained, mask <-> subsequence conversions. The decode contracts are not discharged; lca reconciliation validity is proved under C07; multifurcating inputs under C08.",
+    note="Trusted: validity oracle in standin/srec.py and standin/recon.py; stated bounds; C06/C18 trusted base for the proved cone. Two genuine defects found here were repaired (fix: commits 0e96c3d, d062ca3).",
+)
+CLAIMED["C05"]["text"] = CLAIMED["C05"]["text"].replace("thl and exhaustive against the complete optimal set of a brute-force oracle on the C01 scope.",
+    "thl, exhaustive, base_spfs, ext_spfs, base_uspfs and superdtl against the complete optimal set of the brute-force oracles on the C01-C03 scopes, and the tag clauses of the three step-function recurrence contracts evaluated at run time on random tables.")
